@@ -231,6 +231,12 @@ fn strip_ansi_escape_sequences(text: &str) -> String {
     result
 }
 
+/// Verification hook: the private `strip_ansi_escape_sequences`.
+#[cfg(all(fuzzing, feature = "unicode-linebreak"))]
+pub(crate) fn verif_strip_ansi(text: &str) -> String {
+    strip_ansi_escape_sequences(text)
+}
+
 /// Soft hyphen, also knows as a “shy hyphen”. Should show up as ‘-’
 /// if a line is broken at this point, and otherwise be invisible.
 /// Textwrap does not currently support breaking words at soft
